@@ -286,6 +286,7 @@ def run(ctx):
     _run_rules(ctx)
     from .. import boundaries
     boundaries.check(ctx, 'C18.RB', 'C18')
+    boundaries.check_inits(ctx, 'C18.RI', 'C18')
     boundaries.check_codes(ctx, 'C18.RE', 'C18')
     boundaries.check_writes(ctx, 'C18.RW', 'C18')
     boundaries.check_guards(ctx, 'C18.RG', 'C18')
